@@ -10,7 +10,8 @@
      css_section         get_css_section: the first rule, children before parents, that
                          contains pos (bounds included), with body = between the braces
      css_properties      parse_properties on the events of a rule body (scanned on its own,
-                         last declaration possibly terminated by the end of the body):
+                         last declaration possibly terminated by the end of the body, with or
+                         without a value: C17_css_properties, C17_css_properties_every_tail):
                          exactly the direct declarations, in order, each with exact name and
                          value ranges, value tokens = split_value of the value text shifted to
                          the value, before = end of the previous sibling (or body start),
@@ -86,6 +87,51 @@ Example C17_css_nonvacuous :
   scan (py_slice s 2 10) = body_events [Decl 0 1 1 2 3 3] (Some (4, 5, 5, 6, 7)) /\
   select_item_css s 2 false = Some (mkSI 2 6 [(2, 6); (4, 5)]).
 Proof. vm_compute. repeat split; reflexivity. Qed.
+
+(* The same for every way a body can end (model/CssTreeActions.v, body_tail): all declarations terminated by
+   `;` (TailNone), the last one `name : value` up to the end of the body (TailValue), or the last one
+   `name :` followed by blanks / comments only up to the end of the body (TailEmpty: the scanner, run on the
+   body without its closing brace, reports the name with the offset of the colon and nothing else).  What
+   the code does for TailEmpty: when the recorded colon offset is a colon of the body text, the declaration
+   is reported with its exact name range, an EMPTY value range placed at the end of the body (the offset of
+   the closing brace, where `name:;` has its empty value on the `;`), no value tokens, before = end of the
+   previous sibling (or body start), after = end of the body. *)
+Theorem C17_css_properties_every_tail :
+  forall (fragment : str) (from m : Z) (items : list node) (t : body_tail),
+    seq_ok wf_node 0 m items -> tail_ok fragment t ->
+    props_go fragment from (mkPP None 0 from) [] (body_events_tail items t) = props_spec_tail fragment from items t.
+Proof. exact props_tree_tail. Qed.
+Print Assumptions C17_css_properties_every_tail.
+
+(* ... and a trailing name that has NO colon is not a declaration and is not reported: `a { b:c; color }`
+   (the scanner reports delimiter -1) and `a { color; }` (the scanner reports the offset of the `;`) *)
+Theorem C17_css_properties_bare_name_not_reported :
+  forall (fragment : str) (from m : Z) (items : list node) (ns ne d : Z),
+    seq_ok wf_node 0 m items -> no_colon_at fragment d ->
+    props_go fragment from (mkPP None 0 from) [] (events_forest items ++ [mkEv PropertyName ns ne d]) =
+    props_spec_tail fragment from items TailNone.
+Proof. exact props_tree_bare_name. Qed.
+Print Assumptions C17_css_properties_bare_name_not_reported.
+
+(* non-vacuity: the sheet  a{b:c;color: }  -- the body  b:c;color:<blank>  scanned on its own yields the events
+   of the tree plus the bare name event; the colon offset is a colon; get_css_section reports both declarations,
+   `color` with the empty value (13, 13) on the closing brace and after = 13; select_item_css asked inside the
+   name selects the same (empty) value part; `a{b:c;color }` and `a{b:c;color;}` report `b` only *)
+Example C17_css_empty_tail_nonvacuous :
+  let s := [97;123;98;58;99;59;99;111;108;111;114;58;32;125]%N in
+  let frag := py_slice s 2 13 in
+  scan frag = body_events_tail [Decl 0 1 1 2 3 3] (TailEmpty 4 9 9) /\
+  tail_ok frag (TailEmpty 4 9 9) /\
+  props_spec_tail frag 2 [Decl 0 1 1 2 3 3] (TailEmpty 4 9 9) =
+    [mkCP (2, 3) (4, 5) [(4, 5)] 2 6; mkCP (6, 11) (13, 13) [] 6 13] /\
+  get_css_section s 3 true =
+    Some (mkCS 0 14 2 13 (Some [mkCP (2, 3) (4, 5) [(4, 5)] 2 6; mkCP (6, 11) (13, 13) [] 6 13])) /\
+  option_map si_start (select_item_css s 8 false) = Some 13 /\
+  get_css_section [97;123;98;58;99;59;99;111;108;111;114;32;125]%N 3 true =
+    Some (mkCS 0 13 2 12 (Some [mkCP (2, 3) (4, 5) [(4, 5)] 2 6])) /\
+  get_css_section [97;123;98;58;99;59;99;111;108;111;114;59;125]%N 3 true =
+    Some (mkCS 0 13 2 12 (Some [mkCP (2, 3) (4, 5) [(4, 5)] 2 6])).
+Proof. vm_compute. repeat split; try reflexivity. discriminate. Qed.
 
 (* ================================================================== on TEXT *)
 Theorem C17_css_section_text :
